@@ -359,10 +359,24 @@ def run(ctx) -> None:
         ctx.check("R5", isinstance(fa, ast.Constant) and fa.value is False, "gate: get_tags(fetch=False)", "cli._is_valid_version: uniqueness lookup may fetch", unparse(c), loc="src/bumpver/cli.py")
 
     # ---------------------------------------------------------------- R6
-    envd = shapes.single_def(hr, "env")
-    ok = isinstance(envd, ast.Call) and unparse(envd.func) == "dict" and envd.args and unparse(envd.args[0]) == "os.environ"
-    kws = shapes.kwargs_of(envd) if isinstance(envd, ast.Call) else {}
-    ok = ok and unparse(kws.get("BUMPVER_OLD_VERSION", ast.Constant(0))) == hr.params[1] and unparse(kws.get("BUMPVER_NEW_VERSION", ast.Constant(0))) == hr.params[2]
+    # the environment handed to the hook: a copy of os.environ plus the two documented variables, however it is assembled
+    popen0 = [s.node for s in effects.sites[hr.fq] if s.effect == "PROC"]
+    env_name = unparse(shapes.kwargs_of(popen0[0]).get("env", ast.Constant(0))) if len(popen0) == 1 else "env"
+    env_defs = [v for _st, v in shapes.local_defs(hr, env_name) if v is not None]
+    envd = env_defs[0] if len(env_defs) == 1 else None
+    base_ok = isinstance(envd, ast.Call) and ((unparse(envd.func) == "dict" and envd.args and unparse(envd.args[0]) == "os.environ") or unparse(envd.func) == "os.environ.copy")
+    entries: T.Dict[str, str] = {}
+    if isinstance(envd, ast.Call) and unparse(envd.func) == "dict":
+        entries.update({k: unparse(v) for k, v in shapes.kwargs_of(envd).items()})
+    for n in walk_no_nested(hr.node):
+        if isinstance(n, ast.Assign) and isinstance(n.targets[0], ast.Subscript) and unparse(n.targets[0].value) == env_name and const_str(n.targets[0].slice):
+            entries[const_str(n.targets[0].slice)] = unparse(n.value)
+        elif isinstance(n, ast.Call) and isinstance(n.func, ast.Attribute) and n.func.attr == "update" and unparse(n.func.value) == env_name:
+            entries.update({k: unparse(v) for k, v in shapes.kwargs_of(n).items()})
+            for a_ in n.args:
+                if isinstance(a_, ast.Dict):
+                    entries.update({const_str(k): unparse(v) for k, v in zip(a_.keys, a_.values) if k is not None and const_str(k)})
+    ok = base_ok and entries.get("BUMPVER_OLD_VERSION") == hr.params[1] and entries.get("BUMPVER_NEW_VERSION") == hr.params[2]
     ctx.check("R6", ok, "hooks.run: env = os.environ + BUMPVER_OLD_VERSION=old_version, BUMPVER_NEW_VERSION=new_version",
               "hooks.run: hook environment does not carry the old/new version under the documented names", unparse(envd) if envd is not None else "", loc=hr.loc())
     popen = [s.node for s in effects.sites[hr.fq] if s.effect == "PROC"]
